@@ -480,6 +480,10 @@ func didOps(e *didEnv, v didVariant) []explore.Op {
 			return tx(R2, &didtypes.MsgUpdateDIDRequest{Did: d1, Document: doc, VerificationMethodId: nested(d1, d2), Signature: e.sign(doc, seqOf(m, d1), 1), FromAddress: R2.Bech})
 		}},
 	)
+	// ... and a deactivation proven under that method id deactivates d1 (the DID the message names), nothing else
+	ops = append(ops, explore.Op{Name: "Deactivate(d1,vm=d1#d2#key1,k1,via=R1)", Tx: func(w *world.World, m any) *world.TxSpec {
+		return tx(R1, &didtypes.MsgDeactivateDIDRequest{Did: d1, VerificationMethodId: nested(d1, d2), Signature: e.sign(&didtypes.DIDDocument{Id: d1}, seqOf(m, d1), 1), FromAddress: R1.Bech})
+	}})
 	// the pre-v2 spelling with a network segment (did:panacea:mainnet:<id>) is not a DID of this chain
 	ops = append(ops, explore.Op{Name: "Create(did:panacea:mainnet:<id of d1>,D1(same),k1,via=R1)", Tx: func(w *world.World, m any) *world.TxSpec {
 		legacy := "did:panacea:mainnet:" + strings.TrimPrefix(d1, "did:panacea:")
@@ -495,6 +499,14 @@ func didOps(e *didEnv, v didVariant) []explore.Op {
 			update(dp, dp, "D5", "D5", 1, 0, R1),
 			update(dpm, dpm, "D2", "D2", 2, 0, R2),
 			deact(dp, 1, 0, R1),
+			// the did field is a byte-prefix of the document id (and the other way round): a document about ANOTHER DID
+			create(dp, dpm, "D1", 2, 0, R1), // an observed create of dp+m re-submitted under dp
+			create(dpm, dp, "D1", 1, 0, R2),
+			explore.Op{Name: "Update(dp,D1(dp+m) with dp's key,proof by dp#key1,k1,via=R2)", Tx: func(w *world.World, m any) *world.TxSpec {
+				doc := e.doc("D1", dpm)
+				doc.VerificationMethods[0].PublicKeyBase58 = e.vm(dp, 1, es256k).PublicKeyBase58
+				return tx(R2, &didtypes.MsgUpdateDIDRequest{Did: dp, Document: doc, VerificationMethodId: e.vmID(dp, 1), Signature: e.sign(doc, seqOf(m, dp), 1), FromAddress: R2.Bech})
+			}},
 		)
 	}
 	// proofs that NAME a listed authentication key but are made with another key (or are junk): must never be accepted,
